@@ -99,6 +99,13 @@ pub fn guards(v: &Value) -> Value {
         }
         let mut log = AuthorshipLog::new();
         log.metadata.base_commit_sha = o.clone();
+        // make the notes of different originals distinguishable
+        let mut fa = git_ai::authorship::authorship_log_serialization::FileAttestation::new(format!("file-of-original-{i}"));
+        fa.add_entry(git_ai::authorship::authorship_log_serialization::AttestationEntry::new(
+            "abcdabcdabcdabcd".to_string(),
+            vec![git_ai::authorship::authorship_log::LineRange::Single(i as u32 + 1)],
+        ));
+        log.attestations.push(fa);
         let text = log.serialize_to_string().unwrap();
         let f = w.dir.join(".git").join("vnote");
         std::fs::write(&f, &text).unwrap();
@@ -157,7 +164,11 @@ pub fn guards(v: &Value) -> Value {
                         (Ok(g), Some(o)) => {
                             let mut e = o.clone();
                             e.metadata.base_commit_sha = w.new[i].clone();
-                            if g.metadata != e.metadata || g.attestations.len() != e.attestations.len() {
+                            if g.metadata != e.metadata
+                                || g.attestations.len() != e.attestations.len()
+                                || g.attestations.iter().map(|a| a.file_path.clone()).collect::<Vec<_>>()
+                                    != e.attestations.iter().map(|a| a.file_path.clone()).collect::<Vec<_>>()
+                            {
                                 ok = false;
                             }
                         }
